@@ -50,6 +50,8 @@ pub struct Repertoire {
     pub trail_5e: Vec<(char, char)>,     // (letter, char): some encoded byte is 0x5E
     pub not_inverted: Vec<(char, char)>, // (letter, char): dec(enc(c)) != c
     pub with_nul: Vec<(char, char)>,
+    /// (letter, char): the first encoded byte of a non-ASCII character is a codepage letter or '8' (law `LeadLaw`)
+    pub lead_marker: Vec<(char, char)>,
 }
 
 pub fn repertoire() -> &'static Repertoire {
@@ -59,6 +61,7 @@ pub fn repertoire() -> &'static Repertoire {
         let mut trail_5e = vec![];
         let mut not_inverted = vec![];
         let mut with_nul = vec![];
+        let mut lead_marker = vec![];
         for (l, id) in SPEC {
             let e = enc_by_ident(id).unwrap();
             let mut v = vec![];
@@ -68,6 +71,7 @@ pub fn repertoire() -> &'static Repertoire {
                         v.push(c);
                         if bs.contains(&0x5E) { trail_5e.push((l, c)); }
                         if bs.contains(&0) { with_nul.push((l, c)); }
+                        if bs.first().map(|b| b"LGCETBJHSK8".contains(b)).unwrap_or(true) { lead_marker.push((l, c)); }
                         let mut probe = bs.clone();
                         probe.push(b'A');
                         let want: String = [c, 'A'].iter().collect();
@@ -77,7 +81,7 @@ pub fn repertoire() -> &'static Repertoire {
             }
             by_letter.push((l, v));
         }
-        Repertoire { by_letter, trail_5e, not_inverted, with_nul }
+        Repertoire { by_letter, trail_5e, not_inverted, with_nul, lead_marker }
     })
 }
 
